@@ -104,9 +104,9 @@ func main() {
 			}
 		}
 	}
-	reps := c.Pick(20, 400)
+	reps := c.Pick(60, 1500)
 	nEnum := len(shapes) * reps
-	nRand := c.Pick(12000, 400000)
+	nRand := c.Pick(60000, 2000000)
 	c.Note("enumerated_shapes", len(shapes))
 	from, to := c.Range(nEnum + nRand)
 	for k := from; k < to; k++ {
